@@ -65,7 +65,7 @@ pub fn suite_c13(ctx: &mut Ctx) {
         let es = es_of(t);
         for n in 2..=32u32 {
             // binary operators: all pairs for small widths, lattice pairs with directed partners otherwise
-            let all_pairs = n <= ctx.q(6, 8) as u32;
+            let all_pairs = n <= ctx.q(6, 9) as u32;
             if all_pairs {
                 for a in 0..(1u64 << n) {
                     for b in 0..(1u64 << n) {
